@@ -200,6 +200,47 @@ func scnStaking(ctx *check.JobCtx) {
 		w.SetKeyDidPayment(owner.Id.(*actors.KeyDid), owner.Pay)
 	}
 	w.EndBlock()
+	if withStores {
+		// deterministic prefix: the super-node round robin advances, the super nodes it points past are demoted, a
+		// store fails after the selection ran (uncommitted cursor write), the super nodes come back, a store follows
+		v0 := vals[0]
+		for _, n := range nodes[:3] {
+			w.AddVstorage(n, 3_000_000)
+			w.Deliver("delegate", n, nil, delegateMsg(n, v0, 40_000_000))
+		}
+		w.EndBlock()
+		store := func(dur uint64) {
+			did := w.NewDataId()
+			size := uint64(1000)
+			if dur > 1<<30 {
+				size = 1_000_000 // the price exceeds any balance: the store fails after the selection
+			}
+			w.Store(world.StoreReq{Owner: owner.Id, Gateway: gw, DataId: did, CommitId: did, Duration: dur, Replica: 1, Timeout: 30, Size: size})
+		}
+		store(3600)
+		store(3600)
+		w.EndBlock()
+		for _, n := range nodes[1:3] {
+			w.Deliver("undelegate", n, nil, stakingtypes.NewMsgUndelegate(n.Addr, v0, coin(40_000_000)))
+		}
+		w.EndBlock()
+		store(1 << 40) // selection runs, then the payment fails
+		w.EndBlock()
+		for _, n := range nodes[1:3] {
+			w.Deliver("delegate", n, nil, delegateMsg(n, v0, 40_000_000))
+		}
+		w.EndBlock()
+		store(3600)
+		store(3600)
+		w.EndBlock()
+		supers := 0
+		for _, n := range w.Cur.Nodes {
+			if n.Role == nodetypes.NODE_SUPER {
+				supers++
+			}
+		}
+		w.Case("c20:cursor-recipe:supers-at-end=%d", supers)
+	}
 	ops := int(ctx.ArgInt("ops", 150))
 	amounts := []int64{1, 1_000_000, 9_000_000, 11_111_111, 25_000_000, 120_000_000, 400_000_000, 5_000_000_000}
 	for i := 0; i < ops && !w.Halted(); i++ {
@@ -225,7 +266,7 @@ func scnStaking(ctx *check.JobCtx) {
 		case 15:
 			// a store that fails after providers were selected (the price exceeds the payer's balance)
 			did := w.NewDataId()
-			w.Store(world.StoreReq{Owner: owner.Id, Gateway: gw, DataId: did, CommitId: did, Duration: 1 << 40, Replica: int32(1 + r.Intn(2)), Timeout: 20, Size: 1000})
+			w.Store(world.StoreReq{Owner: owner.Id, Gateway: gw, DataId: did, CommitId: did, Duration: 1 << 40, Replica: int32(1 + r.Intn(2)), Timeout: 20, Size: 1_000_000})
 		case 16:
 			w.Advance(int64(5 + r.Intn(60)))
 		case 0, 1, 2:
